@@ -31,6 +31,15 @@ def h_mw_TokenAuth : Nat := 0xb918b82e717f58be
 /-- hash of the normalised skeleton of skipTokenAuth (internal/frontend/middleware/token_auth.go) -/
 def h_mw_skipTokenAuth : Nat := 0x0aaa1814424c4ba3
 
+/-- hash of the normalised skeleton of * (internal/frontend/middleware/basic_auth.go) -/
+def h_rest_auth_frontend_middleware_basic_auth_go : Nat := 0xf0e063241a9fda73
+
+/-- hash of the normalised skeleton of * (internal/frontend/middleware/token_auth.go) -/
+def h_rest_auth_frontend_middleware_token_auth_go : Nat := 0x9bbe53b119152e2f
+
+/-- hash of the normalised skeleton of * (internal/frontend/middleware/global.go) -/
+def h_rest_auth_frontend_middleware_global_go : Nat := 0xfc8895e33cc08d48
+
 def skipBasicCond : String := "return authToken != nil && len(authHeader) >= 2 && authHeader[0] == \"Bearer\""
 
 def wrapOrder : List (List String) := [
